@@ -2,6 +2,7 @@ package main
 
 import (
 	"fmt"
+	"go/token"
 	"go/types"
 	"strings"
 
@@ -279,6 +280,8 @@ func checkC19(cx *Ctx, r *Report) {
 		r.Check(nOwn == 0, "R-VFG", "IssuerFromHost:no-headers", w.FnPos(ih), "passes a configuration without forwarding headers", "IssuerFromHost configures forwarding headers: the issuer can then be taken from a client-supplied header")
 	}
 	cx.checkIssuerSchemeFlag(r)
+	cx.checkDynamicIssuerPaths(r)
+	cx.checkIssuerComposition(r)
 	cx.checkHeaderOrder(r)
 	cx.checkIssuerMiddlewareInstalled(r)
 	// scheme chosen by allowInsecure alone; leading slash rule
@@ -327,6 +330,178 @@ func checkC19(cx *Ctx, r *Report) {
 // checkIssuerSchemeFlag: the flag that selects the scheme of a derived issuer is the configured one, unchanged, at
 // every call of dynamicIssuer: the issuer of a host then does not vary with anything else a request carries
 // (TLS state, headers), so the entityID served to one request is the Issuer sent in reply to another.
+// checkDynamicIssuerPaths: on every path of dynamicIssuer the result is <scheme>://<host><path> where the scheme
+// constant is "http" exactly when the insecure flag is set (else "https"), and the path gets its leading "/" exactly
+// when it is non-empty and lacks one. The values a phi takes are read off the path (no execution).
+func (cx *Ctx) checkDynamicIssuerPaths(r *Report) {
+	w, fx := cx.W, cx.Fx
+	di := w.Func("provider.dynamicIssuer")
+	if di == nil || len(di.Params) < 3 {
+		r.Fail("R-GUARD", "dynamicIssuer:paths", "", "anchor not found")
+		return
+	}
+	aps, ok := fx.atomPaths(di, 512)
+	if !ok || len(aps) == 0 {
+		r.Undecided("R-GUARD", "dynamicIssuer:paths", w.FnPos(di), "paths not enumerable")
+		return
+	}
+	onPath := func(p *APath, v ssa.Value) ssa.Value {
+		for d := 0; d < 6; d++ {
+			phi, isPhi := v.(*ssa.Phi)
+			if !isPhi {
+				return v
+			}
+			next := ssa.Value(nil)
+			for bi, b := range p.Blocks {
+				if b == phi.Block() && bi > 0 {
+					for j, pr := range phi.Block().Preds {
+						if pr == p.Blocks[bi-1] {
+							next = phi.Edges[j]
+						}
+					}
+				}
+			}
+			if next == nil {
+				return v
+			}
+			v = next
+		}
+		return v
+	}
+	var leaves func(p *APath, v ssa.Value, out *[]ssa.Value)
+	leaves = func(p *APath, v ssa.Value, out *[]ssa.Value) {
+		v = onPath(p, v)
+		if bo, isB := v.(*ssa.BinOp); isB && bo.Op == token.ADD {
+			leaves(p, bo.X, out)
+			leaves(p, bo.Y, out)
+			return
+		}
+		*out = append(*out, v)
+	}
+	pathPar, flagPar := fx.path(di.Params[1]), fx.path(di.Params[2])
+	bad := ""
+	sawSlash, sawHTTP := false, false
+	for i := range aps {
+		p := &aps[i]
+		if p.Ret == nil || len(p.Ret.Results) != 1 {
+			continue
+		}
+		var ls []ssa.Value
+		leaves(p, p.Ret.Results[0], &ls)
+		insecure, nonEmpty, hasPrefix, prefixKnown := false, false, false, false
+		for _, a := range p.Atoms {
+			switch {
+			case a.Op == "TRUE" && a.A == flagPar:
+				insecure = !a.Neg
+			case a.Op == "EMPTY" && a.A == pathPar:
+				nonEmpty = a.Neg
+			case strings.HasPrefix(a.Op, "CALL:strings.HasPrefix"):
+				hasPrefix, prefixKnown = !a.Neg, true
+			}
+		}
+		// expected leaves: scheme, "://", host, ["/"], path
+		want := []string{"const:https", "const:://", fx.path(di.Params[0])}
+		if insecure {
+			want[0] = "const:http"
+		}
+		if nonEmpty && prefixKnown && !hasPrefix {
+			want = append(want, "const:/")
+		}
+		want = append(want, pathPar)
+		var got []string
+		for _, v := range ls {
+			got = append(got, fx.path(v))
+		}
+		if strings.Join(got, " + ") != strings.Join(want, " + ") {
+			bad = fmt.Sprintf("under [%s] the issuer is %s, expected %s", atomsString(p.Atoms), strings.Join(got, " + "), strings.Join(want, " + "))
+		}
+		for _, g := range got {
+			if g == "const:/" {
+				sawSlash = true
+			}
+			if g == "const:http" {
+				sawHTTP = true
+			}
+		}
+	}
+	if bad == "" && !sawSlash {
+		bad = "no path gives a configured path that lacks it its leading slash"
+	}
+	if bad == "" && !sawHTTP {
+		bad = "no path yields an http issuer: insecure mode has no effect on the derived issuer"
+	}
+	r.Check(bad == "", "R-GUARD", "dynamicIssuer:paths", w.FnPos(di), fmt.Sprintf("%d paths: scheme http iff insecure, \"/\" added iff the path is non-empty and lacks it", len(aps)), bad)
+}
+
+// checkIssuerComposition: the pieces of the derived issuer sit in their places: dynamicIssuer(host, path, flag) is
+// called with a host (the first forwarded host on the path that found one, the request's Host on the path that found
+// none) and the configured path - not swapped; and the option that configures custom header names stores them.
+func (cx *Ctx) checkIssuerComposition(r *Report) {
+	w, fx := cx.W, cx.Fx
+	vf := cx.vflow("provider.issuerFromForwardedOrHost")
+	di := w.Func("provider.dynamicIssuer")
+	if vf == nil || di == nil {
+		r.Fail("R-VFG", "derived-issuer:composition", "", "anchors not found")
+		return
+	}
+	fwd := `ext:httpforwarded.ParseParameter("host")#0[]`
+	n := 0
+	for _, c := range w.callsTo(vf.scope, func(c ssa.CallInstruction) bool { return calleeOf(c) == di }) {
+		n++
+		args := c.Common().Args
+		key := "derived-issuer:composition@" + w.InstrPos(c)
+		hostL := vf.Labels(args[0]).leaves()
+		pathL := vf.Labels(args[1]).leaves()
+		bad := ""
+		fromFwd, fromHost := false, false
+		for _, l := range hostL {
+			switch {
+			case l == fwd:
+				fromFwd = true
+			case strings.HasSuffix(l, "/#0.Host"):
+				fromHost = true
+			case l == "const:" || l == "const:zero":
+			default:
+				bad = "the host position of dynamicIssuer receives " + l
+			}
+		}
+		for _, l := range pathL {
+			if l != "param:provider.issuerFromForwardedOrHost/#0" {
+				bad = "the path position of dynamicIssuer receives " + l + " instead of the configured path"
+			}
+		}
+		// which host on which path: the forwarded one only where hostFromForwarded reported one, the request's only where it did not
+		found, notFound := false, false
+		for _, a := range fx.AtomsAt(c.(ssa.Instruction)) {
+			if strings.Contains(a.A, "hostFromForwarded#1") || strings.Contains(a.String(), "hostFromForwarded") {
+				if a.Neg {
+					notFound = true
+				} else {
+					found = true
+				}
+			}
+		}
+		if bad == "" && fromFwd && !found {
+			bad = "a forwarded host is used on a path that has not found hostFromForwarded to report one"
+		}
+		if bad == "" && fromHost && !fromFwd && !notFound {
+			bad = "the request's Host is used on a path that has not found the forwarding headers empty: a forwarded host that is present is ignored"
+		}
+		r.Check(bad == "", "R-VFG", key, w.InstrPos(c), "host in the host position (forwarded if found, else the request's), configured path in the path position", bad)
+	}
+	r.Check(n >= 2, "R-VFG", "derived-issuer:composition#sites", "", fmt.Sprintf("%d dynamicIssuer call sites", n), fmt.Sprintf("only %d dynamicIssuer call sites (one for a forwarded host, one for the request's Host expected)", n))
+	// the custom header option stores what it is given
+	if wo := w.Func("provider.WithIssuerFromCustomHeaders"); wo != nil {
+		ovf := cx.newVFlow("custom-headers", wo)
+		ls, sites := ovf.FieldStoreSources("provider.issuerConfig", "headers")
+		if len(sites) == 0 {
+			r.Fail("R-VFG", "issuer-headers:configured", w.FnPos(wo), "WithIssuerFromCustomHeaders no longer stores the header names into the issuer configuration: the configured headers are ignored")
+		} else {
+			r.checkSources("R-VFG", "issuer-headers:configured", w.InstrPos(sites[0]), ls, []string{"param:provider.WithIssuerFromCustomHeaders/#0", "alloc:*"}, []string{"param:provider.WithIssuerFromCustomHeaders/#0"}, false)
+		}
+	}
+}
+
 // checkHeaderOrder: "the first host of the configured forwarding headers" means configured order. No function of
 // the issuer configuration code re-orders or thins out a list of header names (sort, compact, reverse): the list a
 // request is judged by is the one configured, element for element.
